@@ -300,6 +300,8 @@ def length(a):
         return a[2]
     if tag == 'col':
         return ('nrows', a[1])
+    if tag == 'shaped' and a[2]:
+        return ('const', a[2][0]) if isinstance(a[2][0], int) else a[2][0]
     if tag == 'atom' and a[1] in ATOM_LEN:
         return ATOM_LEN[a[1]]
     if tag == 'keys' and len(a) > 1 and isinstance(a[1], tuple):
@@ -352,6 +354,21 @@ def slice_(base, lo, hi, step=NONE):
 
 
 FLIP = {'Lt': 'Gt', 'LtE': 'GtE'}
+_NOVAL = object()
+
+
+def constval(t):
+    """python value of a constant term (constants and tuples/lists of constants), else _NOVAL"""
+    if t[0] == 'const':
+        v = t[1]
+        return ('num', Fraction(v)) if isnum(t) else (type(v).__name__, v)
+    if t[0] in ('tuple', 'list'):
+        vs = [constval(x) for x in t[1]]
+        if any(v is _NOVAL for v in vs):
+            return _NOVAL
+        return ('seq', tuple(vs))
+    return _NOVAL
+
 
 
 def _numericish(t):
@@ -377,11 +394,14 @@ def cmp_(op, a, b):
         return ('cmp0', op, lin(0, [(a, 1), (b, -1)]))
     if op in ('Eq', 'NotEq', 'Is', 'IsNot') and key(a) > key(b):
         a, b = b, a
+    if op in ('Eq', 'NotEq') and constval(a) is not _NOVAL and constval(b) is not _NOVAL:
+        r = constval(a) == constval(b)
+        return ('const', r if op == 'Eq' else not r)
     if op in ('In', 'NotIn'):
-        if isconst(a) and b[0] in ('tuple', 'list') and all(isconst(x) for x in b[1]):
-            r = any(x[1] == a[1] and (type(x[1]) == type(a[1]) or (isnum(x) and isnum(a))) for x in b[1])
+        if constval(a) is not _NOVAL and b[0] in ('tuple', 'list') and all(constval(x) is not _NOVAL for x in b[1]):
+            r = any(constval(x) == constval(a) for x in b[1])
             return ('const', r if op == 'In' else not r)
-        if isconst(a) and b[0] == 'keys':
+        if isconst(a) and b[0] == 'keys' and b[1] is not None:
             r = a[1] in b[1]
             return ('const', r if op == 'In' else not r)
         if b[0] in ('tuple', 'list'):
